@@ -374,7 +374,10 @@ class C07(Check):
             ctx.violate('encode then decode (encoding given) returns the text with the @charset name rewritten',
                         dict(w, call='decode(encode(text, enc), enc)'), {'got': back, 'want': want})
         has_rule = want != text or (text.startswith(PREFIX) and '"' in text[len(PREFIX):])
-        auto = e in BOM_ENCS or (has_rule and e in ('utf-8', 'latin-1', 'cp1252', 'ascii', 'iso-8859-15', 'koi8-r'))
+        auto = e in BOM_ENCS or (has_rule and e in ('utf-8', 'latin-1', 'cp1252', 'ascii', 'iso-8859-15', 'koi8-r')) \
+            or (e in ('utf-16-le', 'utf-16-be', 'utf-32-le', 'utf-32-be') and want.startswith('@c'))
+        if auto and e == 'utf-16' and want.startswith('\x00'):
+            auto = False        # FF FE 00 00 is the UTF-32 BOM (CSS 2.1 4.4; theorem utf16_nul_is_utf32)
         if auto:
             detected = spec_detect(data)[0]
             try:
